@@ -499,6 +499,19 @@ func runTxMutCase(c TxMutCase) Outcome {
 	// the node's mempool holds whatever CheckTx admitted, some of it stale by now (sequence consumed, height passed):
 	// the real proposal builder must return, and what it builds must be accepted and executed
 	{
+		// one more pooled transaction that is valid now and expires with the next block
+		if rv, err := sim.Node.RelayerView(); err == nil {
+			rp := f.memberAcc(rv.Proposer)
+			if raw, err := sim.Node.Tx(rp, 0, world.TxOpts{TimeoutHeight: uint64(sim.Chain.Height + 1)}, &bitcointypes.MsgApproveCancellation{Proposer: rv.Proposer, Id: []uint64{950_000}}); err == nil {
+				if resp, err := sim.Node.CheckTx(raw, false); err == nil && resp.Code == 0 {
+					o.Classes = append(o.Classes, "expiring-tx-pooled")
+				}
+			}
+			if _, err := sim.Step(world.StepOpts{DT: time.Second, Proposer: -1}); err != nil {
+				o.Fail = failf("blocks-never-fail", "block-failed-after-malformed-input", "follow-up block: %v", err)
+				return o
+			}
+		}
 		blk := sim.Chain.NextBlock(5*time.Second, -1, nil, nil)
 		pr, err := sim.Node.Prepare(blk.PrepareReq(nil))
 		if err != nil {
